@@ -78,9 +78,9 @@ type Region struct {
 }
 
 const (
-	localBlkLimit  = 0x80000  // root blocks are multiples of 16: locals and spec temporaries below this
-	globalBlkBase  = 0x8000   // (n << 4)
-	paramBlkBase   = 0x100000
+	localBlkLimit  = 0x200000 // root blocks are multiples of 64: locals and spec temporaries below this
+	globalBlkBase  = 0x8000   // (n << 6)
+	paramBlkBase   = 0x400000
 )
 
 type Exec struct {
@@ -502,7 +502,7 @@ func (x *Exec) normPtrs(st *State, t types.Type, c []*Term) []*Term {
 func (x *Exec) newBlk() int {
 	if x.initMode {
 		x.nextInit++
-		return (globalBlkBase + 0x1000 + x.nextInit) << 4
+		return (globalBlkBase + 0x1000 + x.nextInit) << 6
 	}
 	if x.spec > 0 {
 		x.nextTmp++
@@ -510,13 +510,13 @@ func (x *Exec) newBlk() int {
 			// wrap: temporaries of finished spec evaluations are dead
 			x.nextTmp = 1
 		}
-		return (0x4000 + x.nextTmp) << 4
+		return (0x4000 + x.nextTmp) << 6
 	}
 	x.nextBlk++
 	if x.nextBlk >= 0x4000 {
 		x.fail("too many local blocks")
 	}
-	return x.nextBlk << 4
+	return x.nextBlk << 6
 }
 
 // constant byte data (string literals) live in read-only local-range blocks of the SMT heap
@@ -1004,7 +1004,7 @@ func (x *Exec) globalBlk(g *ssa.Global) int {
 	if id, ok := x.globals[g]; ok {
 		return id
 	}
-	id := (globalBlkBase + len(x.globals) + 1) << 4
+	id := (globalBlkBase + len(x.globals) + 1) << 6
 	x.globals[g] = id
 	return id
 }
@@ -1096,7 +1096,7 @@ func (x *Exec) instr(fr *Frame, st *State, instr ssa.Instruction) {
 		x.obligeNonNil(st, p.C[0], i.Pos())
 		fblk := p.C[0]
 		if _, isArr := stt.Field(i.Field).Type().Underlying().(*types.Array); isArr {
-			fblk = BVAdd(fblk, BV(1, 32))
+			fblk = BVAdd(fblk, BV(int64(fieldTag(i.X.Type().Underlying().(*types.Pointer).Elem(), i.Field)), 32))
 		}
 		fr.vals[i] = Val{C: []*Term{fblk, BVAdd(p.C[1], BV(int64(fieldMemOffset(stt, i.Field)), 64))}}
 	case *ssa.Field:
@@ -1194,7 +1194,11 @@ func (x *Exec) instr(fr *Frame, st *State, instr ssa.Instruction) {
 	case *ssa.RunDefers, *ssa.DebugRef:
 	case *ssa.TypeAssert:
 		v := x.value(fr, st, i.X)
-		if _, ok := i.AssertedType.Underlying().(*types.Pointer); ok && !i.CommaOk {
+		if _, ok := i.AssertedType.Underlying().(*types.Pointer); ok && i.CommaOk {
+			tid := BV(int64(x.typeID(i.AssertedType)), 32)
+			okT := Eq(v.C[0], tid)
+			fr.vals[i] = Val{C: []*Term{Ite(okT, v.C[1], BV(0, 32)), Ite(okT, v.C[2], BV(0, 64)), okT}}
+		} else if _, ok := i.AssertedType.Underlying().(*types.Pointer); ok && !i.CommaOk {
 			tid := BV(int64(x.typeID(i.AssertedType)), 32)
 			x.oblige("typeassert", "typeassert", []string{"C04"}, i.Pos(), st, Eq(v.C[0], tid), "type assertion may fail")
 			fr.vals[i] = Val{C: []*Term{v.C[1], v.C[2]}}
